@@ -24,12 +24,31 @@ class Models:
             return fn
         return deco
 
+    ALIASES = {
+        'OsStr': ['str'], 'OsString': ['String', 'str'], 'Path': ['str'], 'PathBuf': ['String', 'str'], 'String': ['str'],
+        'Vec': ['[]', 'VecDeque'], 'VecDeque': ['Vec', '[]'], '[]': ['Vec'], 'slice': ['[]', 'Vec'],
+        'HashSet': ['HashMap'], 'BTreeMap': ['HashMap'], 'BTreeSet': ['HashSet', 'HashMap'], 'IndexMap': ['HashMap'],
+        'Rc': ['Arc'], 'Arc': ['Rc'], 'u64': ['usize'], 'u32': ['usize'], 'u16': ['usize'], 'u8': ['usize'], 'i64': ['usize'],
+        'Cow': ['str'], 'Box': ['str'],
+    }
+
     def lookup(self, ci):
         for k in ci.keys:
             m = self.table.get(k)
             if m is not None:
                 self.used[k] = self.used.get(k, 0) + 1
                 return m
+        # the same method on a sibling type (OsStr::to_ascii_lowercase -> str::to_ascii_lowercase, ...)
+        st = ci.self_ty
+        if st:
+            from .interp import _last_seg
+            base = _last_seg(st) if not st.startswith('<impl') else None
+            for al in self.ALIASES.get(base, []):
+                k = '%s::%s' % (al, ci.method)
+                m = self.table.get(k)
+                if m is not None:
+                    self.used[k] = self.used.get(k, 0) + 1
+                    return m
         return None
 
     def const_model(self, raw, segs):
